@@ -203,6 +203,7 @@ def run(tier):
     rule_R14(res, prog)
     rule_R16(res, prog)
     rule_R17(res, prog)
+    rule_R18(res, prog)
     return res.finish()
 
 
@@ -1266,3 +1267,55 @@ def rule_R17(res, prog):
                          "revoked certificate validates" % (fn.relfile, fn.blocks[0].get("ln", 0) if fn.blocks else 0), file=fn.relfile, line=0)
         res.instance(rid, "psCRL_determineRevokedStatusBDT: the revocation lists of all CRLs of the issuer are walked", ok, finding=f_)
     res.floor(rid, 2)
+
+
+def rule_R18(res, prog):
+    """'Conversely a chain that meets these rules ... is accepted' - whatever the ORDER of the caller's trust anchors: an anchor
+    that has the issuer's name and key but may not sign (no keyCertSign, key identifier mismatch) only MARKS the subject;
+    psX509AuthenticateCert still returns PS_SUCCESS for it.  In matrixValidateCertsExt's anchor loop no path leads from that
+    call to the processing of the verdict (checkPathLenConstraint ..) without either the fact that the subject PASSED or a
+    look at the remaining candidates (a call that is handed ic->next)."""
+    from sa import cfgutil as cu
+    rid = "C03.R18"
+    res.rule(rid, "the verdict does not depend on the order of the trust anchors: a marking-only match does not end the search")
+    lst = prog.by_name.get("matrixValidateCertsExt")
+    if not lst:
+        raise AnalysisBroken("C03.R18: matrixValidateCertsExt vanished")
+    fn = lst[0]
+    PASS = prog.const("PS_CERT_AUTH_PASS")
+    n = 0
+    for (bid, idx, ln, node) in cu.find_sites(fn, lambda m: m.get("k") == "call" and m.get("fn") == "psX509AuthenticateCert" and len(m.get("a", [])) >= 3 and
+                                              (strip(m["a"][2]) or {}).get("n") == "ic" and (strip(m["a"][1]) or {}).get("n") == "sc"):
+        if not any(c.get("fn") == "checkPathLenConstraint" for b, l2, c in fn.calls()):
+            continue
+        # only the anchor loop (the site behind which checkPathLenConstraint(ic, sc, ..) follows)
+        probe = cu.escapes(fn, (bid, idx), lambda x: False, target_expr=lambda x: cu.mentions_call(x, {"checkPathLenConstraint"}))
+        if probe is None or len(probe) > 12:
+            continue
+        # the anchor loop: the issuer at this call comes from the caller's CA list (issuerCerts / ic->next), not from the peer's chain
+        rd18 = cu.reaching_defs(fn)
+        ic_node = strip(node["a"][2])
+        ds18 = cu.defs_at(fn, rd18, bid, idx, ic_node.get("id"))
+        if not any(d[3] is not None and cu.ftext(strip(d[3]) or {}) == "issuerCerts" for d in ds18):
+            continue
+        n += 1
+
+        def passed_edge(b, k):
+            t = b.get("term")
+            if t is None or "c" not in t or len(b["succ"]) != 2:
+                return False
+            return any((txt == "(sc->authStatus != %d)" % PASS and not tr) or (txt == "(sc->authStatus == %d)" % PASS and tr)
+                       for (txt, tr, nd) in cu._cond_atoms(t["c"], k == 0))
+
+        def looks_ahead(x):
+            return any(m.get("k") == "call" and any("ic->next" in cu.ftext(strip(a) or {}) for a in m.get("a", [])) for m in walk(x))
+        esc = cu.escapes(fn, (bid, idx), looks_ahead, exempt_edge=passed_edge, target_expr=lambda x: cu.mentions_call(x, {"checkPathLenConstraint"}))
+        f_ = None
+        if esc is not None:
+            f_ = Finding(PROP, rid, fn.name, "the first name/key match ends the anchor search even when it only marks the subject",
+                         "%s:%s matrixValidateCertsExt(): from psX509AuthenticateCert(sc, ic) == PS_SUCCESS the verdict processing is reached (via "
+                         "lines %s) without the fact sc->authStatus == PASS and without a look at the remaining anchors: with anchors "
+                         "[ca_nosign, ca] of one name and key a chain that satisfies every rule under `ca` is refused, with [ca, ca_nosign] it "
+                         "is accepted" % (fn.relfile, ln, [p_[1] for p_ in esc[-6:]]), file=fn.relfile, line=ln)
+        res.instance(rid, "matrixValidateCertsExt:%s a marking-only anchor match looks at the remaining anchors" % ln, esc is None, finding=f_)
+    res.floor(rid, 1)
